@@ -2,7 +2,7 @@
 # usage: runall.sh [tier] [seed...]   runs every registered check, prints one line per check
 T=${1:-quick}; shift
 SEEDS=${@:-1}
-cd /verif
+cd "$(dirname "$0")/.."
 for s in $SEEDS; do
   for id in C01 C02 C03 C04 C05 C06 C07 C08 C09 C10 C11 C12 C13 C14 C15 C16 C17 C18 C19 C20; do
     out=$(VERIF_SEED=$s ./vcheck $id --tier $T 2>&1); rc=$?
